@@ -564,7 +564,16 @@ class Tdf:
         # and comment must be encodable and, with the old entry removed, every
         # slot after the first unused one must be unused
         newBlock._write(BytesIO())
-        BTSString.write(256, comment)
+        TdfEntry(
+            type=newBlock.type,
+            format=newBlock.format.value,
+            offset=0,
+            size=newBlock.nBytes,
+            creation_date=newBlock.creation_date,
+            last_modification_date=newBlock.last_modification_date,
+            last_access_date=datetime.now(),
+            comment=comment,
+        )._write(BytesIO())
         remaining = [entry for entry in self.entries if entry is not old_entry]
         first_unused = next(
             (
